@@ -101,11 +101,16 @@ def discover_sites(live, mm: MetaModel, decls: Optional[List[Decl]] = None) -> T
             h = conv._structure_func.dispatch(ann)
         except Exception as e:  # noqa
             return None, "missing", "dispatch-error", f"{type(e).__name__}: {e}"
-        code = getattr(h, "__code__", None)
+        import functools as _ft
+
+        target = h
+        if isinstance(h, _ft.partial) and not h.keywords and inspect.isfunction(h.func):
+            target = h.func  # a hook with its leading arguments bound (functools.partial): the function below, called with those arguments first
+        code = getattr(target, "__code__", None)
         fn = code.co_filename if code else ""
-        qn = getattr(h, "__qualname__", repr(h))
+        qn = getattr(target, "__qualname__", repr(h))
         if fn and os.path.abspath(fn) == hooks_file:
-            return h, "hook", qn.replace(".<locals>", ""), ""
+            return h, "hook", qn.replace(".<locals>", "") + ("" if target is h else "[partial]"), ""
         if qn.endswith("raise_error"):
             return h, "missing", "raise_error", "no structure handler registered for this union"
         if qn.endswith("structure_attrs_union"):
@@ -546,6 +551,11 @@ def _closure_value(world: World, val, depth: int = 0) -> Optional[V]:
     if isinstance(val, (tuple, list)) and depth < 4:
         items = [_closure_value(world, x, depth + 1) for x in val]
         if all(i is not None for i in items):
+            if isinstance(val, tuple) and type(val) is not tuple:
+                fields = getattr(type(val), "_fields", None)
+                if not (isinstance(fields, tuple) and len(fields) == len(items)):
+                    return None  # a tuple subclass that is no NamedTuple: unknown behaviour
+                return VTuple(items, names=list(fields))
             return VTuple(items) if isinstance(val, tuple) else VList(items)
     if isinstance(val, dict) and depth < 4 and all(isinstance(k, str) for k in val):
         from pyvc.symex import VConstDict
@@ -615,13 +625,25 @@ def verify_site(live, mm: MetaModel, world: World, sources: HookSources, decl_by
     sym.typer = PathTyper(mm, site.tau)
     interp = HookInterp(world, sym)
     # --- the handler's function node
+    bound_args: List[V] = []
     if site.handler_kind == "hook":
-        node = sources.node_for(site.handler)
+        import functools as _ft
+
+        fn_obj = site.handler
+        if isinstance(fn_obj, _ft.partial):
+            for a in fn_obj.args:
+                cv = _closure_value(world, a)
+                if cv is None:
+                    res.unsupported = f"functools.partial with a bound argument outside the subset ({type(a).__name__})"
+                    return res
+                bound_args.append(cv)
+            fn_obj = fn_obj.func
+        node = sources.node_for(fn_obj)
         if node is None:
             res.unsupported = "source node of the handler not found"
             return res
         res.source = f"{HOOKS_REL}:{node.lineno}"
-        closure = closure_of(world, sources, site.handler)
+        closure = closure_of(world, sources, fn_obj)
         fi = FunctionInfo(f"{HOOKS_REL}::{site.handler_name}", node, None, HOOKS_REL, "hooks", closure=closure, inline=True)
     elif site.handler_kind == "default_dis":
         src, info = default_dis_source(site)
@@ -642,7 +664,7 @@ def verify_site(live, mm: MetaModel, world: World, sources: HookSources, decl_by
     def run(ctx: Ctx):
         try:
             params = [a.arg for a in fi.node.args.args]
-            args: List[V] = [root] + [VOpaque("type_arg")] * (len(params) - 1)
+            args: List[V] = bound_args + [root] + [VOpaque("type_arg")] * (len(params) - 1 - len(bound_args))
             rv = interp.exec_function(ctx, fi, args, {})
             return ("return", rv)
         except PyRaise as e:
